@@ -237,6 +237,37 @@ func C03(p *core.Program, r *core.Report) {
 			}
 		}
 	}
+	// ---- I5: the walk reaches every child of a node it descends into: one iteration of the
+	// walker's sibling loop has no decision of its own (no depth or count bound, no filter) and
+	// always walks the child
+	if wn := walkerBody(p, r, "I5"); wn != nil {
+		loops := findSiblingLoops(wn)
+		if len(loops) != 1 {
+			r.Undecided("I5", "WalkNodes: the loop over the children", fmt.Sprintf("%d sibling loops", len(loops)))
+		} else {
+			paths, atoms, err := core.EnumerateDecisions(p, wn, core.DecisionOpts{IterateAt: loops[0].header, Outcome: noOutcome, ExitOutcome: "exit",
+				Event: func(in ssa.Instruction, c *core.Canon) (string, bool) {
+					if call, ok := in.(*ssa.Call); ok && isSelfCall(p, wn, call) {
+						return "descend", true
+					}
+					return "", false
+				}})
+			var extra, skipping []string
+			for a := range atoms {
+				if !strings.HasSuffix(a, " == nil") && !strings.HasSuffix(a, " == nil)") {
+					extra = append(extra, a)
+				}
+			}
+			sort.Strings(extra)
+			for _, pa := range paths {
+				if !strings.Contains(pa.Outcome, "descend") && !strings.Contains(pa.Outcome, "exit") {
+					skipping = append(skipping, shortVal(pa.String()))
+				}
+			}
+			r.Add("I5", "WalkNodes walks every child of a visited node (the child loop has no other exit or filter)", p.Pos(wn.Pos()),
+				err == nil && len(paths) >= 1 && len(extra) == 0 && len(skipping) == 0, fmt.Sprintf("%d iteration paths; conditions besides the end of the child list: %v; iterations without the recursive call: %d", len(paths), extra, len(skipping)))
+		}
+	}
 	// ---- I4: an inline element is only left out (the walk does not descend and nothing of it is
 	// handed to the builder) for a reason that lies in its attributes or its visibility - a plain
 	// <b>, <span>, <a href=..> never is. The javascript: anchor rewrite must hand over the whole
